@@ -3,7 +3,8 @@ raise / async-with bodies that raise / disconnect, on the virtual network or ove
 (real end-of-stream at the fake device, real refusal from an address nobody listens on).
 
 scenario = {"api": 1|2, "mode": "virtual"|"loopback", "word": [action, ...], "seed": n}
-actions: connect, refused, enter, enter-refused, op-ok, op-raises, leave, body-raises, disconnect
+actions: connect, refused, enter, enter-refused, op-ok, op-raises, leave, body-raises, disconnect,
+         refused-while-connected (a connect() retried on a connected client is refused: nothing may change)
 """
 from __future__ import annotations
 
@@ -44,7 +45,7 @@ class LifeRun:
         return self.script.pop(0) if self.script else b""
 
     async def _handler(self, reader, writer):            # loopback
-        conn = {"eof": False, "sent_eof": False, "closed": asyncio.Event()}
+        conn = {"eof": False, "sent_eof": False, "closed": asyncio.Event(), "writer": writer}
         self.dev_conns.append(conn)
         try:
             while True:
@@ -143,20 +144,17 @@ class LifeRun:
         self.log(ev="Flag", flag=bool(api.connected))
         try:
             for a in self.scn["word"]:
-                if a in ("connect", "refused", "enter", "enter-refused"):
-                    refuse = a in ("refused", "enter-refused")
+                if a in ("connect", "refused", "enter", "enter-refused", "refused-while-connected"):
+                    refuse = a in ("refused", "enter-refused", "refused-while-connected")
                     if refuse:
                         # nobody listens at the device's address for the duration of this call
                         if self.mode == "virtual":
                             self.net.listen(good, port, False)
                         else:
-                            server.close()
-                            try:
-                                await asyncio.wait_for(server.wait_closed(), 2.0)
-                            except asyncio.TimeoutError:
-                                pass
+                            server.close()        # stops listening at once (wait_closed would also wait for open connections)
+                            await asyncio.sleep(0)
                     try:
-                        if a in ("connect", "refused"):
+                        if a in ("connect", "refused", "refused-while-connected"):
                             await api.connect()
                         else:
                             await api.__aenter__()
@@ -198,7 +196,15 @@ class LifeRun:
                 pass
             if server is not None:
                 server.close()
-                await server.wait_closed()
+                for c in self.dev_conns:          # a client that never closed its socket must not hang the harness
+                    try:
+                        c["writer"].transport.abort()
+                    except Exception:  # noqa: BLE001
+                        pass
+                try:
+                    await asyncio.wait_for(server.wait_closed(), 2.0)
+                except asyncio.TimeoutError:
+                    pass
 
     def go(self) -> list[dict]:
         if self.mode == "virtual":
